@@ -93,6 +93,18 @@ def operators_case(ctx, n_orbs, utd, rng):
         if not np.allclose(C, ref, atol=1e-9):
             ctx.violation("combined_penalty is not the sum of the three penalties", {**case, "targets": [t_n, t_sz, t_s2], "mu": mu})
             return False
+        # call history: subsets of the keys, in any order, after calls that used other keys
+        allp = {"N": ([mu, t_n], Nr, t_n), "Sz": ([mu, t_sz], Szr, t_sz), "S^2": ([mu, t_s2], S2r, t_s2)}
+        hist = []
+        for _ in range(3):
+            keys = rng.sample(list(allp), rng.randint(1, 3))
+            hist.append(keys)
+            got = fock.fermion_matrix(combined_penalty(n_orbs, {k: list(allp[k][0]) for k in keys}, utd), n)
+            want = mu * sum((allp[k][1] - allp[k][2] * np.eye(2 ** n)) @ (allp[k][1] - allp[k][2] * np.eye(2 ** n)) for k in keys)
+            ctx.count("penalty_history")
+            if not np.allclose(got, want, atol=1e-9):
+                ctx.violation(f"combined_penalty with keys {keys} (after calls with {hist[:-1]}) is not the sum of the requested penalties", {**case, "history": hist, "mu": mu})
+                return False
     # encodings: the encoded N and Sz have the spectrum of the fermionic ones (alternating input, ordering by the mapping)
     if n <= 6:
         for mapping in ("JW", "BK", "JKMN"):
